@@ -285,7 +285,11 @@ def batch_run(model_cls: Type[Model], parameters: Union[ParameterList, Dict[str,
                 results.append(data)
     else:
         with Pool(processes) as pool:
-            for data in pool.imap_unordered(run_model, skwargs_with_repetition):
+            finished_runs = pool.imap_unordered(run_model, skwargs_with_repetition)
+            # One next() per submitted run instead of a for-loop over the iterator: a for-loop would take a StopIteration
+            # raised inside a run (e.g. a model calling next() on an exhausted iterator) for the end of the results.
+            for _ in range(len(skwargs_with_repetition)):
+                data = next(finished_runs)
                 if data is not None:
                     results.append(data)
 
